@@ -28,6 +28,6 @@ func (C) Area() float64 { return 0 }
 // @implements &io.Reader
 type D struct{}
 
-func (D) Area() float64                 { return 1 }
-func (D) Name() string                  { return "d" }
-func (*D) Read(p []byte) (int, error)   { return 0, nil }
+func (D) Area() float64               { return 1 }
+func (D) Name() string                { return "d" }
+func (*D) Read(p []byte) (int, error) { return 0, nil }
